@@ -32,7 +32,7 @@ func globalIdent(old ast.GlobalIdent) ir.GlobalIdent {
 	ident = ident[len(prefix):]
 	// positive integer -> ID
 	// everything else (including negative integer) -> Name
-	if id, err := strconv.ParseInt(ident, 10, 64); err == nil && id >= 0 {
+	if id, err := strconv.ParseInt(ident, 10, 64); err == nil && isDecimal(ident) {
 		return ir.GlobalIdent{GlobalID: id}
 	}
 	// Unquote after trying to parse as ID, since @"42" is recognized as named
@@ -54,7 +54,7 @@ func localIdent(old ast.LocalIdent) ir.LocalIdent {
 	ident = ident[len(prefix):]
 	// positive integer -> ID
 	// everything else (including negative integer) -> Name
-	if id, err := strconv.ParseInt(ident, 10, 64); err == nil && id >= 0 {
+	if id, err := strconv.ParseInt(ident, 10, 64); err == nil && isDecimal(ident) {
 		return ir.LocalIdent{LocalID: id}
 	}
 	// Unquote after trying to parse as ID, since %"42" is recognized as named
@@ -76,7 +76,7 @@ func labelIdent(old ast.LabelIdent) ir.LocalIdent {
 	ident = ident[:len(ident)-len(suffix)]
 	// positive integer -> ID
 	// everything else (including negative integer) -> Name
-	if id, err := strconv.ParseInt(ident, 10, 64); err == nil && id >= 0 {
+	if id, err := strconv.ParseInt(ident, 10, 64); err == nil && isDecimal(ident) {
 		return ir.LocalIdent{LocalID: id}
 	}
 	// Unquote after trying to parse as ID, since %"42" is recognized as named
@@ -770,6 +770,17 @@ func unquote(s string) string {
 		return string(enc.Unquote(s))
 	}
 	return s
+}
+
+// isDecimal reports whether s consists of decimal digits only. Identifiers such
+// as "-0" or "+1" are accepted by strconv.ParseInt but denote names, not IDs.
+func isDecimal(s string) bool {
+	for i := 0; i < len(s); i++ {
+		if s[i] < '0' || s[i] > '9' {
+			return false
+		}
+	}
+	return len(s) > 0
 }
 
 // text returns the text of the given node.
